@@ -4,7 +4,7 @@ Gen — end-to-end correctness of event-level rows over general aggregates:
 (`compileA`): declarations hoisted to the top of the block, one retrieval + loop per aggregate, the
 scalar assignments, the Fill.
 -/
-import FaxVerif.Gen.AggExprCorrect
+import FaxVerif.Gen.AggTok
 import FaxVerif.Gen.EventRowsCorrect
 namespace FaxVerif.Gen
 open FaxVerif.Cpp FaxVerif.Linq
@@ -75,20 +75,20 @@ theorem valsReady_stable (C : Ctx D) (B : Backend) (nm : Nat → String) : ∀ (
 
 /-- running the loops of all columns, in order -/
 theorem compGEs_correct (C : Ctx D) (QC : QCtx D) (hN : QC.N = C.N) (hev : QC.ev = C.ev)
-    (B : Backend) (hB : BackendOK B) (nm : Nat → String)
+    (B : Backend) (hB : BackendBase B) (nm : Nat → String)
     (hinj : ∀ i j, nm i = nm j → i = j) (hres : ∀ j, nm j ≠ "result")
     (hcollT : ∀ name, B.collType name = QC.collType name) :
-    ∀ (es : List GE) (n : Nat) (s : St D) (vs : List (Val D)),
+    ∀ (es : List GE) (n : Nat) (s : St D) (vs : List (Val D)), TokGEs B nm C es n →
       DeclsDoneA C.N ((compGEs B nm es n).flatMap (·.decls)) s.env →
       (∀ e ∈ es, wtGE e = true ∧ ∀ g ∈ aggsGE e, AggHyp QC g) →
       denotes QC [("e", evtVal)] (es.map (geQ "e")) = .ok vs →
       ∃ s', execs C ((compGEs B nm es n).flatMap (·.stmts)) s = .ok s' ∧ s'.rows = s.rows ∧
         ValsReady C.N (compGEs B nm es n) vs s'.env ∧
         (∀ y, ¬ Touch nm n (gesNext B nm es n) y → s'.env y = s.env y)
-  | [], n, s, vs, _, _, hden => by
+  | [], n, s, vs, _, _, _, hden => by
     simp only [List.map_nil, denotes, Except.ok.injEq] at hden; subst hden
     exact ⟨s, by simp [compGEs, execs], rfl, by simp [compGEs, ValsReady], fun _ _ => rfl⟩
-  | e :: es, n, s, vs, hdone, hhyp, hden => by
+  | e :: es, n, s, vs, htk, hdone, hhyp, hden => by
     simp only [List.map_cons, denotes] at hden
     cases hd1 : denote QC [("e", evtVal)] (geQ "e" e) with
     | error f => rw [hd1] at hden; simp at hden
@@ -102,7 +102,7 @@ theorem compGEs_correct (C : Ctx D) (QC : QCtx D) (hN : QC.N = C.N) (hev : QC.ev
         have h1 := compGE_next_ge B nm e n
         have h2 := gesNext_ge B nm es (compGE B nm e n).next
         obtain ⟨hwe, hte⟩ := hhyp e (by simp)
-        obtain ⟨s1, hex1, hr1, hv1, _, hfr1⟩ := compGE_correct C QC hN hev B hB nm hinj hres hcollT e n s v
+        obtain ⟨s1, hex1, hr1, hv1, _, hfr1⟩ := compGE_correct_tok C QC hN hev B hB nm hinj hres hcollT e n s v htk.1
           (fun d hd => hdone d (by simp [hd])) hwe hte hd1
         have hrest_names : ∀ y, InRange nm (compGE B nm e n).next (gesNext B nm es (compGE B nm e n).next) y →
             s1.env y = s.env y := by
@@ -114,7 +114,7 @@ theorem compGEs_correct (C : Ctx D) (QC : QCtx D) (hN : QC.N = C.N) (hev : QC.ev
         have hdone2 : DeclsDoneA C.N ((compGEs B nm es (compGE B nm e n).next).flatMap (·.decls)) s1.env :=
           DeclsDoneA.transport (fun d hd => hdone d (by simp [hd])) (compGEs_declsIn B nm es _) hrest_names
         obtain ⟨s', hex2, hr2, hready2, hfr2⟩ := compGEs_correct C QC hN hev B hB nm hinj hres hcollT
-          es _ s1 vs' hdone2 (fun e' he' => hhyp e' (by simp [he'])) hd2
+          es _ s1 vs' htk.2 hdone2 (fun e' he' => hhyp e' (by simp [he'])) hd2
         refine ⟨s', by rw [execs_append, hex1]; exact hex2, by rw [hr2, hr1], ⟨?_, hready2⟩, ?_⟩
         · rw [← hv1]
           apply evalE_congr
@@ -209,8 +209,10 @@ theorem exec_blockA4 (C : Ctx D) (Ds Ss Ts : List Stmt) (t : String) (s0 sD sS s
 /-- **C01 (event-level rows over general aggregates)** — for every list of scalar columns built
 from `Aggregate(seed, lambda acc, x: body)` over chains, arithmetic and comparisons, every event and
 every class state in which the column variables are declared: if the query denotes `rows`
-(necessarily one row) on the event, the package the translator model emits writes exactly `rows`. -/
-theorem aggRows_correct (B : Backend) (hB : BackendOK B) (nm cn : Nat → String)
+(necessarily one row) on the event, the package the translator model emits writes exactly `rows`.
+All three backends: on the token idiom the table `compileA` emits binds every aggregate's token
+(`tokGEs_compileA`). -/
+theorem aggRows_correct (B : Backend) (hB : BackendBase B) (nm cn : Nat → String)
     (hinj : ∀ i j, nm i = nm j → i = j) (hcinj : ∀ i j, cn i = cn j → i = j)
     (hres : ∀ j, nm j ≠ "result") (hcres : ∀ k, cn k ≠ "result") (hdisj : ∀ j k, nm j ≠ cn k)
     (QC : QCtx D) (hcollT : ∀ name, B.collType name = QC.collType name)
@@ -230,7 +232,7 @@ theorem aggRows_correct (B : Backend) (hB : BackendOK B) (nm cn : Nat → String
   have hvlen : vs.length = es.length := by
     have := denotes_length QC _ _ vs hvs; simpa [es] using this
   -- 1. declarations
-  obtain ⟨hsimple, hnodup⟩ := compGEs_declsOK C B hB.base nm hinj es 0
+  obtain ⟨hsimple, hnodup⟩ := compGEs_declsOK C B hB nm hinj es 0
   obtain ⟨sD, hexD, hrD, hdone, hfrD⟩ := exec_declsA C (fs.flatMap (·.decls)) ⟨σc, []⟩ hsimple hnodup
   have hcnD : ∀ k, sD.env (cn k) = σc (cn k) := by
     intro k
@@ -239,7 +241,7 @@ theorem aggRows_correct (B : Backend) (hB : BackendOK B) (nm cn : Nat → String
     obtain ⟨j, _, _, hj⟩ := declsIn_names (compGEs_declsIn B nm es 0) _ hm
     exact hdisj j k hj.symm
   -- 2. the loops of all columns
-  obtain ⟨sS, hexS, hrS, hready, hfrS⟩ := compGEs_correct C QC rfl rfl B hB nm hinj hres hcollT es 0 sD vs hdone
+  obtain ⟨sS, hexS, hrS, hready, hfrS⟩ := compGEs_correct C QC rfl rfl B hB nm hinj hres hcollT es 0 sD vs (tokGEs_compileA B nm cn hinj cols QC.N QC.ev) hdone
     (fun e he => by
       obtain ⟨p, hp, rfl⟩ := List.mem_map.1 he
       exact hhyp p hp) hvs
